@@ -139,6 +139,44 @@ theorem hh_pollRound {c : Cfg} {sc : Script} {d now : Nat} {h : Host} (hin : h.i
         | false => rfl
         | true => exact absurd h1 hcl'
 
+/-- a healthy target that is still reading is not overdue -/
+theorem hh_not_overdue {c : Cfg} {sc : Script} {d now : Nat} {h : Host} (hh : HH c sc d now h) (hph : h.ph = .reading) :
+    ¬ (c.selfCheck = true ∧ 0 < c.ut ∧ h.conn + c.ut < now) := by
+  rintro ⟨_, hu, hlt⟩
+  rcases hh.opn hph with hop | hop
+  · obtain ⟨it, rest, t, h1, h2, h3⟩ := hh.outHead hph hop
+    obtain ⟨t', ht', hb⟩ := (hh.out.ok it (by rw [h1]; exact List.mem_cons_self)).1
+    rw [h2] at ht'; cases ht'
+    rcases hb with hz | hle <;> omega
+  · obtain ⟨it, rest, t, h1, h2, h3⟩ := hh.errHead hph hop
+    have hs : c.sopt = true := by
+      cases hso' : c.sopt with
+      | true => rfl
+      | false => have := hh.errC hso'; rw [hop] at this; cases this
+    obtain ⟨t', ht', hb⟩ := ((hh.err hs).ok it (by rw [h1]; exact List.mem_cons_self)).1
+    rw [h2] at ht'; cases ht'
+    rcases hb with hz | hle <;> omega
+
+/-- a healthy target never trips the worker's own timeout test either -/
+theorem hh_selfTimeout {c : Cfg} {sc : Script} {d now : Nat} {h : Host} (hh : HH c sc d now h) :
+    HH c sc d now (h.selfTimeout c now) := by
+  have hno : ¬ (c.selfCheck = true ∧ h.ph = .reading ∧ 0 < c.ut ∧ h.conn + c.ut < now) := by
+    rintro ⟨_, hph, hu, hlt⟩
+    rcases hh.opn hph with hop | hop
+    · obtain ⟨it, rest, t, h1, h2, h3⟩ := hh.outHead hph hop
+      obtain ⟨t', ht', hb⟩ := (hh.out.ok it (by rw [h1]; exact List.mem_cons_self)).1
+      rw [h2] at ht'; cases ht'
+      rcases hb with hz | hle <;> omega
+    · obtain ⟨it, rest, t, h1, h2, h3⟩ := hh.errHead hph hop
+      have hs : c.sopt = true := by
+        cases hso' : c.sopt with
+        | true => rfl
+        | false => have := hh.errC hso'; rw [hop] at this; cases this
+      obtain ⟨t', ht', hb⟩ := ((hh.err hs).ok it (by rw [h1]; exact List.mem_cons_self)).1
+      rw [h2] at ht'; cases ht'
+      rcases hb with hz | hle <;> omega
+  simp only [Host.selfTimeout, hno, if_false]; exact hh
+
 theorem dstep_fan_none_guard {s : St} {l : Fan.Label} {f' : Fan.St} (hf : Fan.step s.fan l = some f')
     (hn : dstep s (.fan l) = none) : fanGuard s l = false := by
   cases hg : fanGuard s l with
@@ -239,8 +277,9 @@ theorem hh_step {s s' : St} {l : Label} (hi : TInv s) (h : step s l = some s') {
     rw [hnow]
     by_cases hkj : k = j
     · subst hkj
-      simp only [localOf, if_true, hostStep, hh.intr, Bool.false_eq_true, if_false]
-      exact hh_pollRound hh.intr hph hh.out hh.err hh.errC
+      simp only [localOf, if_true, hostStep, Host.wakeCore, hh.intr, Bool.false_eq_true, if_false,
+        hh_not_overdue hh hph]
+      exact hh_selfTimeout (hh_pollRound hh.intr hph hh.out hh.err hh.errC)
     · simp only [localOf, hkj, if_false, hostStep_other]; exact hh
   | fan fl =>
     obtain ⟨_, hg, he⟩ := dstep_fan_facts (by simpa [step] using h)
